@@ -12,6 +12,11 @@ Proof. vm_compute. reflexivity. Qed.
 Lemma dispatch_as_specified : dispatch = map (fun p => (op_named (fst p), snd p)) spec_dispatch.
 Proof. vm_compute. reflexivity. Qed.
 
+(* the attribute-writing operations of the model are the ones the specification names *)
+Lemma mutating_ops_as_specified :
+  mutating_ops = map op_named ["ACTIVATE"; "REVOKE"; "MODIFY_ATTRIBUTE"; "DELETE_ATTRIBUTE"; "SET_ATTRIBUTE"].
+Proof. vm_compute. reflexivity. Qed.
+
 Lemma formats_equal : denied_format = notfound_format.
 Proof. reflexivity. Qed.
 
